@@ -489,6 +489,10 @@ PROPS["C18"]["extra_tools"] = [{"tool": "tlapm", "file": "SchrageProof.tla", "sa
     "theorem": "Schrage: NextState of Random.tla equals 48271 * x mod (2^31 - 1) for EVERY state, with all intermediates below 2^31 "
                "(the operator TLC evaluates in 32-bit integers is the minstd recurrence; TLAPS, SMT back end)"}]
 PROPS["C18"]["technique"] += " + TLAPS proof that the specification's overflow-free successor is the minstd recurrence for every state (SchrageProof.tla)"
+PROPS["C12"]["extra_tools"] = [{"tool": "tlapm", "file": "CollectProof.tla",
+    "theorem": "Ordered: for ANY number of inputs and every order in which the 64-input chunks are evaluated, the collected results are the "
+               "inputs in input order, each exactly once (abstraction of ValidateSM.tla: Eval / Collect; TLAPS)"}]
+PROPS["C12"]["technique"] += " + TLAPS proof of ordered collection for an unbounded number of inputs (CollectProof.tla)"
 PROPS["C04"]["extra_tools"] = [_ORDER]
 PROPS["C05"]["extra_tools"] = [_ORDER]
 PROPS["C04"]["technique"] += " + TLAPS proof that the reduction of a group is the ordered sum for unbounded group length and workers (OrderProof.tla)"
